@@ -90,7 +90,8 @@ class World:
         self.vals = make_vals()
         ns = {'a': param.Parameter(default=self.vals[0]), 'b': param.Parameter(default=self.vals[0]),
               'n': param.Number(default=1, bounds=self.vals[B0]),
-              'k': param.Parameter(default=self.vals[0], constant=True), 'ro': param.Parameter(default=self.vals[0], readonly=True)}
+              'k': param.Parameter(default=self.vals[0], constant=True), 'ro': param.Parameter(default=self.vals[0], readonly=True),
+              'pf': param.Filename(default=None, allow_None=True)}       # (None unless a token points it at a file)
         if event:
             ns['e'] = param.Event()
         self.cls = type('D', (param.Parameterized,), ns)
